@@ -248,6 +248,58 @@ type SOpt struct {
 	L  []int    `json:"l,string"`
 }
 
+// ChanM / FuncT / KPS: pointer-shaped values that are not pointers or maps (a channel, a function, a struct
+// whose only field is a pointer) with value-receiver marshal methods that look at the receiver; HPS holds
+// them in every position, KPS also serves as a map key type.
+type ChanM chan int
+
+func (c ChanM) MarshalJSON() ([]byte, error) {
+	if c == nil {
+		return []byte(`"nil-chan"`), nil
+	}
+	return []byte(`{"chan-cap":` + strconv.Itoa(cap(c)) + `}`), nil
+}
+
+type FuncT func() int
+
+func (f FuncT) MarshalText() ([]byte, error) {
+	if f == nil {
+		return []byte("nil-func"), nil
+	}
+	return []byte("func"), nil
+}
+
+type KPS struct{ P *int16 }
+
+func (k KPS) MarshalText() ([]byte, error) {
+	if k.P == nil {
+		return []byte("kps:nil"), nil
+	}
+	return []byte("kps:" + strconv.Itoa(int(*k.P))), nil
+}
+
+type HPS struct {
+	C  ChanM
+	F  FuncT
+	K  KPS
+	M  map[KPS]int
+	V  map[string]KPS
+	A  [1]ChanM
+	I  any
+	PC *ChanM `json:"pc,omitempty"`
+}
+
+// AnyT: a named interface type without methods (decoded into like interface{}, but not the predeclared
+// type, so the codecs specialised for interface{} / map[string]interface{} / []interface{} do not apply).
+type AnyT interface{}
+type HAny struct {
+	A AnyT
+	B any
+	M map[string]AnyT
+	S []AnyT
+	P *AnyT `json:"p,omitempty"`
+}
+
 // Dup has names that conflict at its own level (hidden there); when it is embedded, a field of the
 // same name one level up is still the single shallowest candidate and must stay visible.
 type Dup struct {
@@ -360,7 +412,7 @@ func reg(v any) {
 
 // EncodeOnly: corpus types without a faithful decoder (marshal-side tests only).
 var EncodeOnly = map[string]bool{"MVal": true, "MPtr": true, "TVal": true, "TPtr": true, "MBoth": true, "MRaw": true, "NamedStrT": true, "ByteM": true, "ByteT": true, "SE5": true, "SE6": true, "PHold": true, "SAB": true,
-	"ArrMPtr": true, "ArrTwice": true, "MArrFirst": true, "SE10": true, "SE11": true}
+	"ArrMPtr": true, "ArrTwice": true, "MArrFirst": true, "SE10": true, "SE11": true, "ChanM": true, "FuncT": true, "KPS": true, "HPS": true}
 
 // InterfaceTypes: corpus entries that are non-empty interface types.
 var shapeType = reflect.TypeOf((*Shape)(nil)).Elem()
@@ -420,6 +472,13 @@ func init() {
 	reg(SOpt{})
 	Corpus["Shape"] = shapeType
 	CorpusNames = append(CorpusNames, "Shape")
+	Corpus["AnyT"] = reflect.TypeOf((*AnyT)(nil)).Elem()
+	CorpusNames = append(CorpusNames, "AnyT")
+	reg(HAny{})
+	reg(ChanM(nil))
+	reg(FuncT(nil))
+	reg(KPS{})
+	reg(HPS{})
 }
 
 var (
